@@ -154,3 +154,11 @@ PROPS["C23"] = dict(
          "whether its line-terminator set equals the protocol's. Both disagree on the pinned tree (two open known findings); "
          "the rule passes once either side is changed to agree and fires again on regression.",
     note="Does not decide the arithmetic of the conversions (C22 not applicable). Trusted: rustc MIR, emmyfacts.")
+
+PROPS["C41"] = dict(
+    module="c41", func="run", level="other", crates=["emmylua_code_analysis"],
+    technique="return-value provenance on MIR restricted to paths through the body binder (CFG reachability + copy roots)",
+    text="Decides for every loop construct whether the flow that continues after the loop can be the pre-loop flow although the "
+         "body was bound, i.e. whether narrowing after the loop can ignore the body. Three of the four binders do so by design on "
+         "the pinned tree (open known findings, each with the failing program); repeat-until satisfies the rule.",
+    note="Type-level soundness of the merge is not decided. Trusted: rustc MIR, emmyfacts; binders are found by signature.")
